@@ -103,6 +103,17 @@ CLAIMED['C06'] = dict(
          'limit-crossing instants are not exact integer seconds; tank area concrete (50 m2).',
     ref='DESIGN.md section 4, C06')
 
+CLAIMED['C05'] = dict(
+    engine='symx+ctrlplane',
+    technique='symbolic execution of the real TankLevelCondition/ValueCondition.evaluate and of the real run_sim loop (Newton solve stubbed; tank inflow forked per solve; control thresholds symbolic); all feasible paths of presolve backtracking, priority ordering and post-solve re-solving explored; SMT (z3 LIRA) decides that every control whose condition holds on a recorded state has its commanded status',
+    text='Unit: for all levels, previous levels, thresholds and inflows the level condition is true iff the relation holds, and when it becomes true the backtrack is the whole number of seconds since the crossing. '
+         'System: tank network with up to 2 (thorough 3) user controls on one pipe (two thresholds crossed in one step, different priorities, level / head / junction-pressure sources), thresholds symbolic, '
+         'tank inflow forked per solve: at EVERY recorded step every control whose condition holds has its commanded status unless an equal/higher-priority triggered control commands otherwise, '
+         'and a control that changes the pipe does so within 2 s of flow of its threshold (partial step).',
+    note='Trusted: z3; contract H for the stubbed solve; tank geometry concrete in the multi-control configurations; assume-guarantee lemma on the backtrack (proved at unit level); a hysteresis pair cycling over two '
+         'steps is beyond z3 within the budget and not claimed; target pipe without CV/pump/tank-limit closure.',
+    ref='DESIGN.md section 4, C05')
+
 NOT_APPLICABLE = {
     'C03': 'compares the numerical output of the closed EPANET shared library with a compiled Newton/SuperLU iteration; neither can be executed '
            'symbolically with the tools on this image and a contract standing in for EPANET would be the property itself (DESIGN.md section 5)',
